@@ -19,6 +19,8 @@ DOCS = {
     "two-blocks": [block("b1", [item("_s")]), block("b2", [loop("L2", ["_x"], 1)])],
     "frame+loop": [block("b1", [frame("f1", [loop("L1", ["_x"], 1)]), item("_t")]), block("b2", [])],
     "empty": [],
+    "three-blocks": [block("b1", [item("_s")]), block("b2", [item("_t")]), block("b3", [item("_u")])],
+    "loop2x2": [block("b1", [loop("L1", ["_x", "_y"], 2), item("_t")])],
     "big": [block("b1", [item("_s"), loop("L1", ["_x", "_y"], 2), frame("f1", [item("_u"), loop("L2", ["_q"], 2)]), item("_t")]), block("b2", [item("_v")])],
 }
 QUICK = ["scalars", "loop2x1", "loop1x2", "item+loop", "frame", "two-blocks", "frame+loop", "empty"]
@@ -180,7 +182,7 @@ def lenient_equal(obs, exp):
 def c15(tier, replay=None):
     rep = Report("C15", tier, "model_checking")
     binary = build("asan")
-    names = QUICK if tier == "quick" else QUICK + ["big"]
+    names = QUICK if tier == "quick" else QUICK + ["three-blocks", "loop2x2"]
     covs = []
     total = total_ok = tstates = ttrans = 0
     for name in names:
